@@ -54,7 +54,8 @@ def run_harness(ctx, binary, nshard, env):
         e.update(VERIF_TRACE=tf, VERIF_SHARD="%d/%d" % (k, nshard))
         rc, out = run_test_bin(ctx, binary, "TestVerifIpam", env=e, timeout=1500)
         if rc != 0 or not os.path.exists(tf):
-            raise MachineryError("ipam harness shard %d failed rc=%s\n%s" % (k, rc, out[-3000:]))
+            key = [l for l in out.splitlines() if any(w in l for w in ("zz_verif", "panic", "--- FAIL", "fatal error", "goroutine "))][:12]
+            raise MachineryError("ipam harness shard %d failed rc=%s\n%s\n%s" % (k, rc, "\n".join(key), out[-1500:]))
         rows = read_ndjson(tf)
         rows.sort(key=lambda r: r["seq"])
         return tc.split_traces(rows)
